@@ -439,3 +439,8 @@ mod inner {
         }
     }
 }
+
+// Verification hook (compiled only by `cargo kani`, which sets `--cfg kani`).
+#[cfg(kani)]
+#[path = "/verif/harness/strains_vec.rs"]
+pub(crate) mod verif_harness;
